@@ -865,11 +865,13 @@ def main():
         "main": make_cases(texts_main),
         "mainx": make_cases(texts_main, nostart=True, args=()),     # no extra args / no start argument
         "small": make_cases(texts_small),
+        "tiny": make_cases(texts_ab(2) + [b"aab", b"aba", b"abb", b"bab", b"a\nb", b"\x02ab", b"\x01a"]),
         "num": make_cases(texts_num, starts="all"),
         "nl": make_cases(texts_ab(5, (b"a", b"\n")), starts="all"),
         "bytes": [(bytes([c]), 0, ()) for c in range(256)] + [(bytes([c, c]), 1, ()) for c in range(0, 256, 5)],
         # ASan: exact-capacity buffers need length >= 4; every start offset
-        "asan": make_cases([t for t in texts_ab(5) if len(t) >= 4][::1] + [b"\x01\x02ab", b"ab\x02a\x01"], starts="all"),
+        "asan": make_cases([t for t in texts_ab(4 if quick else 5) if len(t) >= 4] + [b"\x01\x02ab", b"ab\x02a\x01"],
+                           starts="all"),
         "api": make_cases(texts_ab(4) + [b"\x02ab"], starts="0,1,len"),
     }
     for w in range(0, 9):
@@ -934,12 +936,13 @@ def main():
              env={"C12_TEXTBUF": "1"})
 
     apis = dedupe(api_patterns(quick))
-    add_part("api", [(p, s) for p in apis for s in (API_SUBSTS if not quick else API_SUBSTS[:5])], "api", kind="api")
+    add_part("api", [(p, s) for p in apis for s in (API_SUBSTS if not quick else API_SUBSTS[:3])],
+             "tiny" if quick else "api", kind="api")
 
     # contexts around every level-1 pattern (depth 3), one part per context form
     ctx_base = l1 if not quick else dedupe(level1(False))
     for name, f in context_forms():
-        add_part("ctx-" + name, (lambda f: lambda: dedupe([f(p) for p in ctx_base]))(f), "small" if quick else "main")
+        add_part("ctx-" + name, (lambda f: lambda: dedupe([f(p) for p in ctx_base]))(f), "tiny" if quick else "main")
 
     # two nested contexts around every level-1 pattern with core operands (depth 4), thorough only
     if not quick:
